@@ -31,7 +31,7 @@ def fmt(kind, v):
 def build_case(tok, errno, kinds, routes):
     """-> (Case, plan) ; plan = list of (route, kindletter) in op order"""
     lines, plan = [], []
-    ctx = {'setopt': 'A', 'setmulti': 'B', 'parse': 'C', 'plist': 'D', 'mlist': 'E'}
+    ctx = {'setopt': 'A', 'setmulti': 'B', 'parse': 'C', 'plist': 'D', 'mlist': 'E', 'pbare': 'F', 'pappend': 'G'}
     good = {'i': b'1', 'f': b'1.5', 'b': b'on'}
     for r in routes:
         lines.append('init %s N1 0' % ctx[r])
@@ -46,9 +46,15 @@ def build_case(tok, errno, kinds, routes):
                 lines.append('parse_buf D ' + enc(k.encode() + b'l = {' + good[k] + b', "' + tok + b'"}'))
             elif r == 'mlist':      # second element of a bulk set
                 lines.append('setmulti E %s 2 %s %s' % (enc(k + 'l'), enc(good[k]), enc(tok)))
+            elif r == 'pbare':      # a list option given one value without braces
+                lines.append('parse_buf F ' + enc(k.encode() + b'l = "' + tok + b'"'))
+            elif r == 'pappend':    # ... appended without braces: second element, after the default
+                lines.append('parse_buf G ' + enc(k.encode() + b'l += "' + tok + b'"'))
             else:
                 lines.append('parse_buf C ' + enc(k.encode() + b' = "' + tok + b'"'))
-            if r in ('plist', 'mlist'):
+            if r == 'pbare':
+                lines.append('get F %s %s 0' % (enc(k + 'l'), KINDS[k][0]))
+            elif r in ('plist', 'mlist', 'pappend'):
                 lines.append('get %s %s %s 1' % (ctx[r], enc(k + 'l'), KINDS[k][0]))
             else:
                 lines.append('get %s %s %s 0' % (ctx[r], enc(k), KINDS[k][0]))
@@ -88,7 +94,7 @@ def run(st, drv, items):
             ndiag = sum(1 for l in g if l.startswith('diag '))
             rl = [l for l in g if l.startswith('r ') and not l.startswith('r get')]
             rc = rl[0].split(' ')[2] if rl else '?'
-            ok = {'setopt': rc == '1', 'setmulti': rc == '0', 'parse': rc == '0', 'plist': rc == '0', 'mlist': rc == '0'}[route]
+            ok = {'setopt': rc == '1', 'setmulti': rc == '0', 'parse': rc == '0', 'plist': rc == '0', 'mlist': rc == '0', 'pbare': rc == '0', 'pappend': rc == '0'}[route]
             got = g[-1][6:]
             st.outcome('%s %s %s' % (kind, ok, got if ok else ''))
             if verdict == UNSPEC:
@@ -165,7 +171,7 @@ def shard_boundary(sh):
     items = []
     for t in toks:
         for e in ERRNOS:
-            routes = ('setopt', 'setmulti', 'parse', 'plist', 'mlist') if (b'"' not in t and b'\\' not in t and b'$' not in t and b'\0' not in t) else ('setopt', 'setmulti', 'mlist')
+            routes = ('setopt', 'setmulti', 'parse', 'plist', 'mlist', 'pbare', 'pappend') if (b'"' not in t and b'\\' not in t and b'$' not in t and b'\0' not in t) else ('setopt', 'setmulti', 'mlist')
             items.append((t, e, ('i', 'f', 'b'), routes))
     run(st, drv, items)
     return st.result([drv])
@@ -179,7 +185,7 @@ def main():
     engine.build(['asan'])
     quick = ck.tier == 'quick'
     dl = ck.deadline
-    all_routes = ('setopt', 'setmulti', 'parse', 'plist', 'mlist')
+    all_routes = ('setopt', 'setmulti', 'parse', 'plist', 'mlist', 'pbare', 'pappend')
     bt = boundary_tokens()
     engine.phase(ck, 'boundary values, all routes, all errno', shard_boundary, [(list(c), dl) for c in engine.chunks(bt, 8)], tokens=len(bt))
     sh = [('tokens <= 4, int+float, 3 routes, 3 errno', NUM, 0, 0, (), ('i', 'f'), all_routes, ERRNOS, dl)]
